@@ -97,7 +97,20 @@ def make_draw(rng: random.Random, groups: list[dict], dtype="float64", pdtype="f
         d["grad_mode"], d["sparse_steps"] = "sparse_first", rng.choice([1, 2, 3])
     elif r < 0.3:
         d["grad_mode"], d["sparse_steps"] = "striped", rng.choice([2, 4, 100])
+    if dtype == "float64" and pdtype == "float64":
+        draw_scales(rng, d)
     return d
+
+
+SCALE_PATTERNS = [[1e-5], [1e-5], [1e3], [1.0, 1.0, 1e-10], [1.0, 1e-10, 1.0, 1e-10], [1.0, 1.0, 1.0, 1e-10, 1e-12], [1.0, 1e-10], [1e-3, 1.0],
+                  [1.0, 1.0, 1.0, 1e4]]
+
+
+def draw_scales(rng: random.Random, d: dict, p: float = 0.35):
+    """Gradient magnitudes (float64 draws): a whole run of small / large gradients, or single steps far below the accumulated history."""
+    d.pop("grad_scales", None)
+    if d.get("dtype", "float64") == "float64" and d.get("pdtype", "float64") == "float64" and rng.random() < p:
+        d["grad_scales"] = list(rng.choice(SCALE_PATTERNS))
 
 
 def hyper_moves(groups: list[dict], keys=("mom", "b1", "wd", "lr")) -> list[tuple]:
